@@ -21,7 +21,7 @@ from vlib import tlc, tlaval, pool, fordrun, site  # noqa: E402
 from vlib.verdict import Check, machinery_failure  # noqa: E402
 
 PROP = "C05"
-DISP = {"pub": ["public"], "pubprot": ["public", "protected"], "all": ["public", "protected", "private"], "priv": ["private"], "none": ["none"]}
+DISP = {"pub": ["public"], "pubprot": ["public", "protected"], "all": ["public", "protected", "private"], "priv": ["private"], "prot": ["protected"], "none": ["none"]}
 PARENT_PAGE = {"m": "module/m.html", "t_pub": "type/t_pub.html", "s_pub": "proc/s_pub.html", "sm": "module/sm.html", "mp": "proc/mp.html", "s_prv": "proc/s_prv.html"}
 OWN_PAGE = {"t_pub": "type/t_pub.html", "t_prv": "type/t_prv.html", "s_pub": "proc/s_pub.html", "s_prv": "proc/s_prv.html",
             "g_pub": "interface/g_pub.html", "ai_prv": "interface/ai_prv.html", "mp": "proc/mp.html", "mpi": "interface/mp.html", "nl_prv": "namelist/nl_prv.html", "t_ext": "type/t_ext.html"}
@@ -167,7 +167,7 @@ def run(tier, seed, ck: Check):
         sel.add("nl_prv")          # C05-F3: the namelist of a procedure is documented whatever happens to the procedure
         return sel
 
-    div = 1 if big else 20
+    div = 1 if big else 40
     cases = [c for c in cases if zlib.crc32(json.dumps(c["opt"], sort_keys=True).encode()) % div == seed % div]
     for i, c in enumerate(cases):
         c["graph"] = (i % 7 == 0)
